@@ -151,10 +151,13 @@ func (vars *Vars) Merge(other *Vars, include *Include) {
 	defer other.mutex.RUnlock()
 	other.mutex.RLock()
 	for pair := other.om.Front(); pair != nil; pair = pair.Next() {
+		// Set the directory on a copy: other belongs to the included Taskfile
+		// and may be merged again by another include
+		value := pair.Value
 		if include != nil && include.AdvancedImport {
-			pair.Value.Dir = include.Dir
+			value.Dir = include.Dir
 		}
-		vars.om.Set(pair.Key, pair.Value)
+		vars.om.Set(pair.Key, value)
 	}
 }
 
